@@ -3,19 +3,31 @@ package evmworld
 import (
 	"fmt"
 	"testing"
-	"time"
 
 	"verifsim/kit"
+
+	"github.com/youchainhq/go-youchain/core/vm"
 )
 
-func TestProf(t *testing.T) {
-	ck := kit.LookupPart("C16", "evm")
-	for i := uint64(0); i < 40; i++ {
-		st := time.Now()
-		r, herr := kit.OneRun(ck, "quick", 1, i, false)
-		if herr != "" {
-			t.Fatal(herr)
-		}
-		fmt.Printf("run %d: %v passes=%d steps=%d viol=%d rec=%d\n", i, time.Since(st), r.Stats["passes.fault"], r.Steps, len(r.Violations), r.Stats["probe.recursion program"])
+func TestMinimalResurrection(t *testing.T) {
+	p := &Program{N: 2, Balance: []uint64{1000, 1000}, Storage: make([][nKeys]uint64, 2)}
+	c1 := &Code{Name: "C1", Kind: kindBase,
+		Stmts: []Stmt{{Kind: stCall, Op: vm.CALL, Target: baseAddrs[1], GasMode: gasFixed, Gas: 100000}},
+		End:   Ending{Kind: endSelfdestruct, Beneficiary: baseAddrs[1]}}
+	c2 := &Code{Name: "C2", Kind: kindBase, End: Ending{Kind: endSelfdestruct, ToSelf: true}}
+	p.Base = []*Code{c1, c2}
+	finish(c1, 0)
+	finish(c2, 1)
+	p.Txs = []TxPlan{{To: baseAddrs[0], Gas: 3000000}, {To: baseAddrs[1], Gas: 3000000}}
+	r := kit.NewRun("C16", "quick", 0, 0, kit.NewReplay(nil), true)
+	for _, l := range p.Describe() {
+		r.Logf("%s", l)
 	}
+	u := fixedUniverse(p)
+	runPass(r, p, u, &passSpec{mode: "discovery", target: -1})
+	ref := runPass(r, p, u, &passSpec{mode: "reference", target: -1})
+	for _, l := range r.Lines() {
+		fmt.Println(l)
+	}
+	fmt.Println(ref.txOutcome, r.Violations)
 }
